@@ -565,6 +565,10 @@ class Engine(ExprMixin, CallMixin):
             info = self.classes.get(recv.cls, {})
             if name in info.get("fields", {}):
                 return self.heap_read(st, recv, name)
+            if qual not in self.funcs and self.resolve(qual) == "contract" and getattr(self.contracts[qual], "is_property", False) is True:
+                # a (cached) property of a class defined in ANOTHER module, known here only through an (assumed) contract that
+                # the sidecar marks `is_property = True`: reading the attribute is the call of the getter
+                return self.call_named(qual, [recv], {}, node, st)
             if qual in self.funcs:
                 raise Unsupported(f"{qual} has neither a contract nor an inline declaration")
             raise Unsupported(f"attribute {recv.cls}.{name} not declared")
@@ -975,12 +979,16 @@ class Engine(ExprMixin, CallMixin):
         if shp[0] != "ref" or self.spec:
             return None
         info = self.classes.get(shp[1], {})
-        fld = info.get("boxed_list") or info.get("boxed_set")
+        fld = info.get("boxed_list") or info.get("boxed_set") or info.get("boxed_valueset")
         if not fld:
             return None
         if info.get("boxed_list") and isinstance(val, VList) and val.elems is None:
             return self.construct(shp[1], [], {fld: self.default_of(self.field_shape(shp[1], fld))}, node, st)
         if info.get("boxed_set") and isinstance(val, VEmptySet):
+            return self.construct(shp[1], [], {fld: self.default_of(self.field_shape(shp[1], fld))}, node, st)
+        if info.get("boxed_valueset") and isinstance(val, VEmptySet):
+            # a set object whose members have no key sort (records with list fields): content = the LIST of the values added so
+            # far, membership = equality with one of them (CallMixin.boxed_valueset_method); `set()` creates the empty one
             return self.construct(shp[1], [], {fld: self.default_of(self.field_shape(shp[1], fld))}, node, st)
         if isinstance(val, (VList, VSet, VEmptySet)):
             raise Unsupported(f"a list / set value other than an empty display assigned to a local declared as the object {shp[1]}")
@@ -1231,6 +1239,7 @@ class Engine(ExprMixin, CallMixin):
         # expression may go to such an object (its class is not known syntactically) -> all their content fields
         boxed = [info["boxed_list"] for info in self.classes.values() if info.get("boxed_list")]
         boxed += [info["boxed_set"] for info in self.classes.values() if info.get("boxed_set")]  # set objects: likewise
+        boxed += [info["boxed_valueset"] for info in self.classes.values() if info.get("boxed_valueset")]  # likewise
 
         def tgt(t):
             if isinstance(t, ast.Name):
@@ -2018,12 +2027,50 @@ class Engine(ExprMixin, CallMixin):
             self.assume_wf(st.env[p], st)
         for text in c.requires:
             st.assume(to_z3(self.spec_eval(text, st)))
+        body_ = fdef.body
+        if getattr(c, "start_at", None):
+            # TAIL contract (counterpart of a PREFIX contract): `start_at = "<statement text prefix>"`, `start_from = "<variant>"`.
+            # The function is verified from that TOP-LEVEL statement on.  The state there is over-approximated: every local named
+            # in `start_locals` (name -> shape) and every ghost name in `start_ghost` is an UNKNOWN value of its shape, the heap is
+            # unknown (references held in the locals are allocated objects), and of this unknown state only the clauses
+            # `start_assumes` are assumed - each of which must be, literally, a clause that the prefix contract <function>@<start_from>
+            # PROVES at its cut point (its stop_ensures), and that prefix must stop exactly in front of the same statement.  A local
+            # the tail reads but does not declare is an unbound name (Unsupported).  No `requires` (facts about the parameters at
+            # the cut must come from proved clauses too).  `old(..)` / `fresh(..)` / the frame obligations of the tail refer to the
+            # state at the cut.  Such a contract describes a part of the body: it is refused at call sites (calls.call_contract).
+            src_ = self.contracts.get(f"{qual}@{getattr(c, 'start_from', None)}")
+            if src_ is None or getattr(src_, "stop_before", None) != c.start_at:
+                raise ContractError(f"{cname}: start_from must name a prefix contract of {qual} that stops before {c.start_at!r}")
+            if list(c.requires):
+                raise ContractError(f"{cname}: a tail contract (start_at) takes its entry facts from the prefix's proved clauses, not from requires")
+            for text in getattr(c, "start_assumes", []):
+                if text not in src_.stop_ensures:
+                    raise ContractError(f"{cname}: start_assumes clause {text!r} is not a stop_ensures clause of {qual}@{c.start_from}")
+            at_ = [k_ for k_, s_ in enumerate(fdef.body) if ast.unparse(s_).startswith(c.start_at)]
+            if len(at_) != 1:
+                raise ContractError(f"{cname}: start_at must match exactly one top-level statement of {qual}")
+            body_ = fdef.body[at_[0]:]
+            for n_, shp_ in getattr(c, "start_locals", {}).items():
+                st.env[n_] = self.fresh_value(self.shape(shp_), n_ + "@cut", st)
+                self.assume_wf(st.env[n_], st)
+                self.assume_dict_wf(st, st.env[n_])
+                if n_ in getattr(c, "start_defaultdicts", {}):
+                    # the local holds a collections.defaultdict(<factory>) (its type at the cut, like its shape): a missing-key
+                    # read inserts factory()
+                    if not isinstance(st.env[n_], VDict) or c.start_defaultdicts[n_] not in ("set", "list", "int"):
+                        raise ContractError(f"{cname}: start_defaultdicts[{n_!r}] needs a dict-shaped local and a factory set / list / int")
+                    st.env[n_].default = c.start_defaultdicts[n_]
+            for n_, shp_ in getattr(c, "start_ghost", {}).items():
+                st.ghost[n_] = self.fresh_value(self.shape(shp_), n_ + "@cut", st)
+                self.assume_wf(st.ghost[n_], st)
+            for text in getattr(c, "start_assumes", []):
+                st.assume(to_z3(self.spec_eval(text, st)))
         for cmd in getattr(c, "ghost_entry", []):
             self.ghost_cmd(cmd, st, fdef, {"at": "entry", "label": "entry"})
         entry = st.copy()
         st.old = entry
         self.reach = [("entry", list(self.global_facts) + list(entry.pc))]
-        outs = self.exec_block(fdef.body, st)
+        outs = self.exec_block(body_, st)
         allowed = self.raises_of(c)
         nexits = 0
         for o in outs:
